@@ -61,17 +61,21 @@ impl Puppet {
     }
     /// logical name -> tid ("t1" = leader, "t2" = the other task)
     fn tid_of(&self, name: &str) -> Option<i32> {
-        match name {
-            "t1" => Some(self.pid),
-            "t2" => self.tids().into_iter().find(|t| *t != self.pid),
-            _ => None,
+        // "t1" = leader, "t2", "t3", .. = the other tasks in the order of their ids
+        let k: usize = name.strip_prefix('t')?.parse().ok()?;
+        if k == 1 {
+            return Some(self.pid);
         }
+        self.tids().into_iter().filter(|t| *t != self.pid).nth(k - 2)
     }
     fn name_of(&self, tid: i32) -> String {
         if tid == self.pid {
             "t1".into()
         } else {
-            "t2".into()
+            match self.tids().into_iter().filter(|t| *t != self.pid).position(|t| t == tid) {
+                Some(i) => format!("t{}", i + 2),
+                None => "t2".into(),
+            }
         }
     }
     fn counters(&self) -> Option<Vec<u64>> {
